@@ -46,4 +46,26 @@ theorem tie_skel_size : Gen.Skel.queue_size = [
   "return atomic.LoadInt64(q.tail) - atomic.LoadInt64(q.head)",
   "}"] := by rfl
 
+/-! further functions on this property's paths (any edit to them is reported) -/
+
+theorem tie_skel_createQueue : Gen.Skel.createQueue = [
+  "func createQueue(cap uint32) *queue {",
+  "return createQueueFromBytes(make([]byte, queueHeaderLength+int(cap*queueElementLen)), cap)",
+  "}"] := by rfl
+
+theorem tie_skel_queue_isFull : Gen.Skel.queue_isFull = [
+  "func (q *queue) isFull() bool {",
+  "return q.size() == q.cap",
+  "}"] := by rfl
+
+theorem tie_skel_queue_isEmpty : Gen.Skel.queue_isEmpty = [
+  "func (q *queue) isEmpty() bool {",
+  "return q.size() == 0",
+  "}"] := by rfl
+
+theorem tie_skel_queue_consumerIsWorking : Gen.Skel.queue_consumerIsWorking = [
+  "func (q *queue) consumerIsWorking() bool {",
+  "return (atomic.LoadUint32(q.workingFlag)) > 0",
+  "}"] := by rfl
+
 end Tie.C04
